@@ -4171,7 +4171,8 @@ class DecAffine(Affine):
 
         expr = super().sum(axis)
 
-        return DecAffine(self.dro_model, expr, self.event_adapt, self.fixed)
+        return DecAffine(self.dro_model, expr, self.event_adapt, self.fixed,
+                         self.ctype)
 
     def trace(self):
         """
@@ -4186,7 +4187,8 @@ class DecAffine(Affine):
 
         expr = super().trace()
 
-        return DecAffine(expr.dro_model, expr, self.event_adapt, self.fixed)
+        return DecAffine(self.dro_model, expr, self.event_adapt, self.fixed,
+                         self.ctype)
 
     def expcone(self, x, z):
         """
